@@ -76,6 +76,13 @@ type handle struct {
 	isLogin bool
 }
 
+// kev: one entry of the ordered log of a kick-existing run
+type kev struct {
+	Tear bool
+	H    int
+	St   int
+}
+
 type discEv struct {
 	pl *proxy.VerifC11Player
 	st proxy.LoginStatus
@@ -90,6 +97,9 @@ type env struct {
 	byPtr   sync.Map // *VerifC11Player -> handle index
 	evMu    sync.Mutex
 	evs     []discEv
+	tried   []int       // kick cases: sessions whose login was started
+	klog    []kev       // ordered log of registrations and DisconnectEvents (kick cases)
+	onTear  func(h int) // kick cases: called inside the DisconnectEvent of handle h (after logging)
 	idPool  []int
 	nmPool  []string
 	uuidOf  func(int) uuid.UUID
@@ -122,7 +132,16 @@ func newEnv(online, kick bool, pool []poolEntry) *env {
 		pl, _ := ev.Player().(*proxy.VerifC11Player)
 		e.evMu.Lock()
 		e.evs = append(e.evs, discEv{pl, ev.LoginStatus()})
+		h := -1
+		if v, ok := e.byPtr.Load(pl); ok {
+			h = v.(int)
+		}
+		e.klog = append(e.klog, kev{Tear: true, H: h, St: statusClass(ev.LoginStatus())})
+		hook := e.onTear
 		e.evMu.Unlock()
+		if hook != nil {
+			hook(h)
+		}
 	})
 	seenID := map[int]bool{}
 	seenNm := map[string]bool{}
@@ -952,6 +971,158 @@ func raceTerm(online, kick bool, pool []poolEntry, pre, logins []int, results []
 		lib.ListOf(results, func(r result) string { return r.resCoq() }), final.resCoq())
 }
 
+// ---------- kick-existing: several sessions of one UUID ----------
+
+// login runs the login of participant h: the real flow (Activated) for connection handles, a bare
+// registerConnection for player handles; a successful registration is appended to the ordered log.
+func (e *env) kickLogin(h int) bool {
+	e.evMu.Lock()
+	e.tried = append(e.tried, h)
+	e.evMu.Unlock()
+	var ok bool
+	if e.hs[h].isLogin {
+		ok = e.exec(op{K: oLogin, H: h}).B
+		// Activated returns after registerConnection returned true and LoginSuccess was written
+	} else {
+		ok = e.exec(op{K: oReg, H: h}).B
+	}
+	if ok {
+		e.evMu.Lock()
+		e.klog = append(e.klog, kev{H: h})
+		e.evMu.Unlock()
+	}
+	return ok
+}
+
+// liveHandles: sessions whose login was started and whose connection is still open
+func (e *env) liveHandles(parts []int) []int {
+	e.evMu.Lock()
+	tried := map[int]bool{}
+	for _, h := range e.tried {
+		tried[h] = true
+	}
+	e.evMu.Unlock()
+	var live []int
+	for _, h := range parts {
+		if tried[h] && e.hs[h].conn.Context().Err() == nil {
+			live = append(live, h)
+		}
+	}
+	return live
+}
+
+// runKickForced: handle 0 is online; handle 1 logs in (the kicker); every time the kicker disconnects the
+// session it found, the NEXT intruder (handles 2, 3, ...) logs in on another goroutine from inside that
+// session's DisconnectEvent and is waited for — i.e. it registers after the victim's teardown and before
+// the kicker takes the registry lock again. Deterministic: the log order is exact.
+func runKickForced(online bool, pool []poolEntry) (log []kev, live []int, final result, hung bool) {
+	e := newEnv(online, true, pool)
+	defer e.dispose()
+	parts := make([]int, len(pool))
+	for i := range pool {
+		parts[i] = i
+	}
+	if !e.kickLogin(0) {
+		panic("kick: first session did not register")
+	}
+	next := 2
+	var mu sync.Mutex
+	e.evMu.Lock()
+	e.onTear = func(victim int) {
+		mu.Lock()
+		h := next
+		if victim < 0 || victim == 1 || h >= len(pool) {
+			mu.Unlock()
+			return
+		}
+		next++
+		mu.Unlock()
+		done := make(chan struct{})
+		go func() { defer close(done); e.kickLogin(h) }()
+		select {
+		case <-done:
+		case <-time.After(5 * time.Second):
+		}
+	}
+	e.evMu.Unlock()
+	done := make(chan struct{})
+	go func() { defer close(done); e.kickLogin(1) }()
+	if !e.waitAll(done, true) {
+		e.leaked = true
+		return nil, nil, result{Kind: "hang"}, true
+	}
+	e.evMu.Lock()
+	e.onTear = nil
+	log = append([]kev(nil), e.klog...)
+	e.evMu.Unlock()
+	final = e.call(op{K: oSnap})
+	final.Disc = nil
+	return log, e.liveHandles(parts), final, false
+}
+
+// runKickFree: handle 0 optionally online, all other handles log in at the same time.
+func runKickFree(online bool, pool []poolEntry, preOnline bool) (log []kev, live []int, final result, hung bool) {
+	e := newEnv(online, true, pool)
+	defer e.dispose()
+	parts := make([]int, len(pool))
+	for i := range pool {
+		parts[i] = i
+	}
+	first := 0
+	if preOnline {
+		if !e.kickLogin(0) {
+			panic("kick: first session did not register")
+		}
+		first = 1
+	}
+	start := make(chan struct{})
+	var wg sync.WaitGroup
+	for h := first; h < len(pool); h++ {
+		wg.Add(1)
+		go func(h int) { defer wg.Done(); <-start; e.kickLogin(h) }(h)
+	}
+	done := make(chan struct{})
+	go func() { wg.Wait(); close(done) }()
+	close(start)
+	if !e.waitAll(done, true) {
+		e.leaked = true
+		return nil, nil, result{Kind: "hang"}, true
+	}
+	e.evMu.Lock()
+	log = append([]kev(nil), e.klog...)
+	e.evMu.Unlock()
+	final = e.call(op{K: oSnap})
+	final.Disc = nil
+	return log, e.liveHandles(parts), final, false
+}
+
+func kickTerm(online bool, pool []poolEntry, exact bool, log []kev, live []int, final result) string {
+	return lib.App("CKick", lib.Bool(online), poolCoq(pool), lib.Bool(exact),
+		lib.ListOf(log, func(k kev) string {
+			h := lib.N(999999)
+			if k.H >= 0 {
+				h = lib.N(uint64(k.H))
+			}
+			if k.Tear {
+				return lib.App("KTear", h, statusCoq[k.St])
+			}
+			return lib.App("KReg", h)
+		}),
+		lib.ListOf(live, func(v int) string { return lib.N(uint64(v)) }), final.resCoq())
+}
+
+func kickLogText(log []kev) []string {
+	var out []string
+	for _, k := range log {
+		if k.Tear {
+			out = append(out, fmt.Sprintf("DisconnectEvent(%d,%s)", k.H, statusCoq[k.St]))
+		} else {
+			out = append(out, fmt.Sprintf("registered(%d)", k.H))
+		}
+	}
+	return out
+}
+
 // ---------- main ----------
 
 type job struct {
@@ -964,9 +1135,9 @@ func main() {
 	rng := lib.NewRng(f.Seed)
 	out := lib.NewOut("C11", f)
 	out.Imports = "From Verif Require Import Base.Lin Model.PlayerRegistry.\n"
-	out.Rule = "sequential histories: 24-40 calls (canRegister/register/unregister/Disconnect/login via authSessionHandler.Activated/lookups) over a pool of 3-7 player objects sharing 1-3 base names in random case spellings and 1-3 UUIDs, offline and online, kick-existing on and off, a full lookup snapshot after every mutating call; concurrent histories: 16 goroutines x 3-6 barrier rounds of atomic registry calls, linearization searched in Go and validated in Coq; races: 2 logins (same name/UUID or not) started at once through Activated, optionally against a pre-registered player, outcome must be produced by some schedule of the model's login threads. distinct = distinct Coq term; non-trivial = a call was rejected, a player was replaced/kicked, a DisconnectEvent fired, or calls overlapped on the same name or UUID"
+	out.Rule = "sequential histories: 24-40 calls (canRegister/register/unregister/Disconnect/login via authSessionHandler.Activated/lookups) over a pool of 3-7 player objects sharing 1-3 base names in random case spellings and 1-3 UUIDs, offline and online, kick-existing on and off, a full lookup snapshot after every mutating call; concurrent histories: 16 goroutines x 3-6 barrier rounds of atomic registry calls, linearization searched in Go and validated in Coq; races: 2 logins (same name/UUID or not) started at once through Activated, optionally against a pre-registered player, outcome must be produced by some schedule of the model's login threads; kick-existing: 3-4 sessions of one UUID, half with the interleaving forced from inside the kicked session's DisconnectEvent (a further login registers after the victim's teardown and before the kicker re-locks; exact event log), half free-running, judged on the ordering clause over the log and on one-live-session-per-UUID at quiescence. distinct = distinct Coq term; non-trivial = a call was rejected, a player was replaced/kicked, a DisconnectEvent fired, or calls overlapped on the same name or UUID"
 
-	var seqJobs, linJobs, raceJobs []job
+	var seqJobs, linJobs, raceJobs, kickJobs []job
 	modes := [][2]bool{{false, false}, {true, false}, {true, true}, {false, true}}
 
 	// (a) sequential histories
@@ -1023,7 +1194,7 @@ func main() {
 		linJobs = append(linJobs, job{
 			run: func() {
 				h, hung = runLin(online, pool, rounds)
-				for _, v := range [][2]bool{{false, false}, {true, false}, {false, true}, {true, true}} {
+				for _, v := range [][2]bool{{false, false}} { // the code as it is now; pre-fix variants are not accepted
 					var ok bool
 					order, ok = searchLin(pool, v[0], v[1], h, hung)
 					complete = ok
@@ -1099,9 +1270,73 @@ func main() {
 		})
 	}
 
-	// interleave the three kinds so that every shard gets a similar mix (evaluation cost differs by kind)
+	// (d) kick-existing mode: 3 or 4 sessions of ONE UUID, forced interleaving (exact log) and free-running
+	nKick := f.Count(24)
+	for i := 0; i < nKick; i++ {
+		r := rng.Fork()
+		forced := i%2 == 0
+		online := r.Chance(2, 3)
+		base := baseNames[r.Intn(3)]
+		n := r.Range(3, 4)
+		preOnline := forced || r.Bool()
+		if !forced && !preOnline {
+			n = 3
+		}
+		var pool []poolEntry
+		for k := 0; k < n; k++ {
+			nm := base
+			if r.Chance(1, 3) {
+				nm = caseVariant(r, base)
+			}
+			// online + kick: the real login flow; offline + kick: canRegisterConnection would refuse a
+			// taken name, so the sessions go through registerConnection directly
+			pool = append(pool, poolEntry{Name: nm, ID: 0, Login: online})
+		}
+		var log []kev
+		var live []int
+		var final result
+		var hung bool
+		kickJobs = append(kickJobs, job{
+			run: func() {
+				if forced {
+					log, live, final, hung = runKickForced(online, pool)
+				} else {
+					log, live, final, hung = runKickFree(online, pool, preOnline)
+				}
+			},
+			emit: func() {
+				tags := []string{"kind=kick", fmt.Sprintf("kick-sessions=%d", len(pool))}
+				if forced {
+					tags = append(tags, "kick-forced-interleaving")
+				} else {
+					tags = append(tags, "kick-free-running")
+				}
+				if hung {
+					tags = append(tags, "kick-ended-in-hang")
+				}
+				kicked := 0
+				for _, k := range log {
+					if k.Tear {
+						kicked++
+					}
+				}
+				out.Add(kickTerm(online, pool, forced, log, live, final),
+					map[string]any{"online": online, "kick": true, "pool": pool, "forced_interleaving": forced,
+						"scenario":   "session 0 online first (forced, or free with pre_online); forced: session 1 logs in, and each time it disconnects the session it found, the next session (2, 3) logs in from inside that DisconnectEvent on another goroutine; free: the remaining sessions log in at once",
+						"pre_online": preOnline, "log": kickLogText(log), "live_sessions_at_quiescence": live,
+						"final": fmt.Sprintf("%s byid=%v byname=%v all=%v n=%d", final.Kind, final.ByID, final.ByNm, final.L, final.V)},
+					kicked >= 1, tags...)
+			},
+		})
+	}
+
+	// interleave the kinds so that every shard gets a similar mix (evaluation cost differs by kind)
 	var jobs []job
-	for i, j, k := 0, 0, 0; i < len(seqJobs) || j < len(linJobs) || k < len(raceJobs); {
+	for i, j, k, m := 0, 0, 0, 0; i < len(seqJobs) || j < len(linJobs) || k < len(raceJobs) || m < len(kickJobs); {
+		for n := 0; n < 2 && m < len(kickJobs); n++ {
+			jobs = append(jobs, kickJobs[m])
+			m++
+		}
 		for n := 0; n < 9 && i < len(seqJobs); n++ {
 			jobs = append(jobs, seqJobs[i])
 			i++
